@@ -323,6 +323,15 @@ fn run_history(ops: &[Op], ctx: &mut Ctx) -> Result<(), Violation> {
         if let Some(d) = map_diff(&m, &rf) {
             return Err(v("address-map", i, format!("after {:?}: {}", op, d)));
         }
+        // "a read of 0xF9 returns the interrupt status": a key interrupt that is latched and waiting
+        // to be taken must show as pending there (bit 4), whatever else the register holds
+        if m.signals().interrupt_flipflop_1() {
+            ctx.cov.probe("status-register-read-with-key-interrupt-latched");
+            let st = m.bus().read(0xF9);
+            if st & 0x10 == 0 {
+                return Err(v("interrupt-status", i, format!("after {:?}: a key interrupt is latched (waiting to be taken) but read(0xF9) = 0x{:02X} does not show it as pending (bit 4)", op, st)));
+            }
+        }
         let nv_after = no_value_reads(&m);
         if nv_after != nv_before {
             let k = (0..7).find(|k| nv_after[*k] != nv_before[*k]).unwrap();
@@ -436,6 +445,21 @@ impl Check for C10 {
                 },
             })
             .collect();
+        let mut ops: Vec<Op> = ops;
+        if rng.chance(1, 6) {
+            // interrupt-mask bundle: enable, press, rewrite the mask (with or without the key bit), press
+            let at = rng.usize(ops.len() + 1);
+            let bundle = [
+                Op::S(Stim::BusWrite(0xF9, 1 | (rng.u8() & 0x3E))),
+                Op::S(Stim::KeyInt),
+                Op::S(Stim::BusWrite(0xF9, if rng.bool() { rng.u8() & 0x3E } else { rng.u8() })),
+                Op::S(Stim::KeyInt),
+                Op::S(Stim::BusRead(0xF9)),
+            ];
+            for (k, o) in bundle.iter().enumerate() {
+                ops.insert(at + k, o.clone());
+            }
+        }
         Scn::History(ops)
     }
     fn execute(&self, scn: &Scn, ctx: &mut Ctx) -> Result<(), Violation> {
